@@ -420,15 +420,25 @@ impl TryFrom<super::safe::SchemaMut> for Schema {
 			// Safety:
 			// - UnionVariantsPerTypeLookup won't ever read `per_type_lookup` of the other
 			//   nodes, so there are no aliasing issues.
+			// - The table is built while only shared references to the nodes exist (a union
+			//   may, in an invalid graph, list itself as a variant), and only then do we take
+			//   the unique reference needed to store it.
 			unsafe {
-				match *curr_storage_node_ptr {
-					SchemaNode::Union(Union {
-						ref variants,
-						ref mut per_type_lookup,
-					}) => {
-						*per_type_lookup = UnionVariantsPerTypeLookup::new(variants);
+				let new_per_type_lookup = match *curr_storage_node_ptr {
+					SchemaNode::Union(Union { ref variants, .. }) => {
+						Some(UnionVariantsPerTypeLookup::new(variants))
 					}
-					_ => {}
+					_ => None,
+				};
+				if let (
+					Some(new_per_type_lookup),
+					SchemaNode::Union(Union {
+						ref mut per_type_lookup,
+						..
+					}),
+				) = (new_per_type_lookup, &mut *curr_storage_node_ptr)
+				{
+					*per_type_lookup = new_per_type_lookup;
 				}
 				curr_storage_node_ptr = curr_storage_node_ptr.add(1);
 			}
